@@ -36,6 +36,10 @@ Range(s) == {s[i] : i \in DOMAIN s}
 \* permutation of sequences of pairs with unique tags: same set of pairs, same length
 IsPermTagged(a, b) == Len(a) = Len(b) /\ Range(a) = Range(b) /\ Cardinality(Range(b)) = Len(b)
 Ascending(s, name) == \A i \in 1..(Len(s) - 1) : Rank(name, s[i][1], s[i + 1][1]) # GT
+\* the default ranker on <<value, tag>> pairs (and on associations key -> value)
+\* is lexicographic, hence total on distinct pairs: the result is determined
+LexAscending(s) == \A i \in 1..(Len(s) - 1) : \/ s[i][1] < s[i + 1][1]
+                                              \/ s[i][1] = s[i + 1][1] /\ s[i][2] < s[i + 1][2]
 Rev(s) == [i \in 1..Len(s) |-> s[Len(s) + 1 - i]]
 
 \* ceil(log2(n)) for n >= 1
@@ -47,6 +51,7 @@ RecOK(x) ==
     CASE x.op = "sort" ->
            /\ IsPermTagged(x.output, x.input)                       \* nothing lost, duplicated or altered
            /\ x.ranker \in Preorders => Ascending(x.output, x.ranker)
+           /\ x.ranker = "natlex" => LexAscending(x.output)         \* natural order of the pairs themselves
            /\ x.calls <= n * CeilLog2(n) + n                        \* terminates within the merge-sort bound
       [] x.op = "reverse" -> x.output = Rev(x.input)
       [] x.op = "reverse2" -> x.output = x.input                    \* applying it twice is the identity
